@@ -265,7 +265,7 @@ class PythonParserGenerator(IndentPrintMixin, NodeWalker):
         self._gen_decor(Ctx.gatherplus, exp=gather.exp, sep=gather.sep, var='g')
 
     def walk_SkipTo(self, skipto: g.SkipTo):
-        self._gen_decor(Ctx.skipto, exp=skipto.exp)
+        self._gen_decor(Ctx.skipto, exp=skipto.exp, var=f'{self.loopn}')
 
     def walk_Named(self, named: g.Named):
         self._gen_decor(Ctx.nameset, exp=named.exp, arg=repr(named.name))
